@@ -26,6 +26,22 @@ C20_BUILDER = (r'^builder/BytecodeBuilder::(emit|emit_jump|emit_jump_if_true|emi
 C10_EXCLUDE = r'#(span_recorded|span_inherited|earlier_spans_kept)$|::(set_span|clear_span)/'
 
 PROPS = {
+    'C18': {
+        'verus': [{'unit': 'modpath', 'rlimit': 30}],
+        'oracles': [{'unit': 'modpath', 'mount': 'src/lib.rs', 'mod': 'verif_replay_modpath', 'test': 'verif_oracle_modpath'}],
+        'trusted_base': COMMON_TB,
+        'assumptions': [
+            'std string calls are routed through trusted wrappers whose bodies are the std calls they replace (rules R1-R6, listed in extraction_edits): '
+            'str::split(char) == split spec, [&str]::join == join spec, format! of &str/String == concatenation, str::starts_with == prefix test, '
+            'rfind+get(..idx) == text before the last separator, to_string == identity',
+            'str extensionality axiom: two &str with equal character sequences are equal (what `match s { "lit" => .. }` compares)',
+            'str / String are viewed as Seq<char> (vstd)',
+        ],
+        'explanation': 'Verus contracts on the real text of ModulePath::{resolve,normalize_path,parent,is_relative,is_bare}: the result equals the spec function '
+                       'norm(dir(importer) + "/" + specifier) (fold over segments with a stack), plus lemmas over the spec proved on every run: canonical shape '
+                       '(no empty/./.. segments, no trailing slash), absoluteness preserved, idempotence, split/join inverse.',
+        'not_carried': 'how Interpreter uses resolved paths (module cache keys, import requests): C09',
+    },
     'C15': {
         'kani': [{'unit': 'value_toint32', 'mount': 'src/value.rs', 'mod': 'verif_kani_value_toint32',
                   'harnesses': {
